@@ -116,6 +116,64 @@ def store (cells : List Cell) (loc : Nat) (batch : List BTok) : List Cell :=
 def visible (cells : List Cell) (s : Nat) (p : Int) : List (Tok × Int) :=
   (cells.filter fun c => c.has s && c.pos ≤ p).map fun c => (c.tok, c.dpos)
 
+/-! ### sliding-window caches (`NewSWACache`) -/
+
+/-- `updateSlidingWindow` for one sequence whose lowest batch position is `p`: its entries older than
+    `p - W` are dropped -/
+def evictSeq (W : Nat) (s : Nat) (p : Int) (cells : List Cell) : List Cell :=
+  cells.map fun c => if c.has s && c.pos < p - W then c.dropSeq s else c
+
+/-- lowest position of sequence `s` in the batch -/
+def lowestPos (batch : List BTok) (s : Nat) : Option Nat :=
+  (batch.filter (·.seq == s)).foldl (fun acc b => match acc with
+    | none => some b.pos
+    | some m => some (min m b.pos)) none
+
+/-- `updateSlidingWindow`: for every sequence of the batch (sequences are independent, so the map
+    iteration order does not matter) -/
+def evict (window : Option Nat) (cells : List Cell) (batch : List BTok) : List Cell :=
+  match window with
+  | none => cells
+  | some W =>
+    (batch.map (·.seq)).eraseDups.foldl (fun cs s =>
+      match lowestPos batch s with
+      | none => cs
+      | some p => evictSeq W s p cs) cells
+
+/-- the mask with a window: entries of `s` at positions in `[p - W, p]` -/
+def visibleW (window : Option Nat) (cells : List Cell) (s : Nat) (p : Int) : List (Tok × Int) :=
+  match window with
+  | none => visible cells s p
+  | some W => (cells.filter fun c => c.has s && c.pos ≤ p && !(c.pos < p - W)).map fun c => (c.tok, c.dpos)
+
+/-- `Causal.CanResume(seq, pos)` as it is on the tree (with the presence count of commit 86ff119f0;
+    `counted = false` gives the older version without it).  Cell ranges are taken to cover the
+    sequence's cells (C06's `ranges_cover`). -/
+def canResumeV (counted : Bool) (window : Option Nat) (cells : List Cell) (s : Nat) (pos : Nat) : Bool :=
+  match window with
+  | none => true
+  | some W =>
+    let ps := (cells.filter (·.has s)).map (·.pos)
+    match ps with
+    | [] => false
+    | p0 :: rest =>
+      let last : Int := rest.foldl max p0
+      if last < 0 then false
+      else
+        let lastWS : Int := max 0 (last - W)
+        let posWS : Int := max 0 ((pos : Int) - W)
+        if posWS < lastWS then false
+        else if !counted then true
+        else
+          let have_ := (cells.filter fun c => c.has s && posWS ≤ c.pos && c.pos < (pos : Int)).length
+          decide ((have_ : Int) = (pos : Int) - posWS)
+
+def canResume (window : Option Nat) (cells : List Cell) (s : Nat) (pos : Nat) : Bool :=
+  canResumeV true window cells s pos
+
+/-- how LoadCacheSlot consults the cache: cells, sequence id, position -/
+abbrev CanRes := List Cell → Nat → Nat → Bool
+
 /-! ## InputCache (runner/ollamarunner/cache.go) -/
 
 structure Slot where
@@ -133,6 +191,8 @@ structure Cache where
   resetEnd : Int
   slots : List Slot
   cells : List Cell
+  /-- sliding window of the Causal cache (`none` = `windowSize == math.MaxInt32`, a plain causal cache) -/
+  window : Option Nat := none
 deriving Repr
 
 inductive Fail
@@ -218,11 +278,12 @@ def findSlot (c : Cache) (prompt : List Tok) (now : Nat) : Except Fail (Cache ×
   else findBest c prompt now
 
 /-- the rest of LoadCacheSlot once slot `i` with `numPast` common inputs has been chosen -/
-def loadTail (c : Cache) (i numPast : Nat) (prompt : List Tok) (now : Nat) (canResume : Bool) :
+def loadTail (c : Cache) (i numPast : Nat) (prompt : List Tok) (now : Nat) (canResume : CanRes) :
     Except Fail (Cache × Nat × List Tok) :=
   let numPast := if numPast = prompt.length then numPast - 1 else numPast
-  let numPast := if numPast > 0 && !canResume then 0 else numPast
   let id := (getSlot c.slots i).id
+  -- asked AFTER the "leave one input" decrement: the position that will really be resumed
+  let numPast := if numPast > 0 && !(canResume c.cells id numPast) then 0 else numPast
   let r := remove c.canShift c.cells id numPast maxI32
   match r.2 with
   | none =>
@@ -239,9 +300,9 @@ def loadTail (c : Cache) (i numPast : Nat) (prompt : List Tok) (now : Nat) (canR
            i, prompt.drop 0)
     | some _ => .error .removeFailed
 
-/-- LoadCacheSlot.  `canResume` stands for `cache.CanResume(slot.Id, numPast)` (always true for a
-    Causal cache without a sliding window; the theorems hold for any answer). -/
-def loadCacheSlot (c : Cache) (prompt : List Tok) (now : Nat) (canResume : Bool) :
+/-- LoadCacheSlot.  `canResume` stands for `cache.CanResume` (`canResume c.window` for a Causal cache;
+    the coherence theorems hold for any answer). -/
+def loadCacheSlot (c : Cache) (prompt : List Tok) (now : Nat) (canResume : CanRes) :
     Except Fail (Cache × Nat × List Tok) :=
   match findSlot c prompt now with
   | .error e => .error e
@@ -347,6 +408,8 @@ structure Server where
   eosMod : Nat
   /-- which `FindStop` the tree has (probed on the real function by the driver) -/
   stopEarliest : Bool := false
+  /-- which `CanResume` the tree has: with the presence count of 86ff119f0 (probed) -/
+  crCounted : Bool := true
 deriving Repr
 
 /-- NewSequence's handling of numKeep and of prompts longer than the context (text inputs:
@@ -504,10 +567,11 @@ def processBatch (sv : Server) (adopt : Option (List Cell)) : Except Fail (Serve
   if batch.isEmpty then pure (sv, p.obs)
   else
     -- model.Forward: StartForward (+ defrag), Put, Get
+    let cells0 := evict sv.cache.window sv.cache.cells batch
     let (cells, loc) ←
-      match findStartLoc sv.cache.cells batch.length with
+      match findStartLoc cells0 batch.length with
       | some loc => (match adopt with
-                     | none => pure (sv.cache.cells, loc)
+                     | none => pure (cells0, loc)
                      | some _ => throw Fail.badHint)
       | none =>
         match adopt with
@@ -520,7 +584,7 @@ def processBatch (sv : Server) (adopt : Option (List Cell)) : Except Fail (Serve
     let sv := { sv with cache := { sv.cache with cells := cells } }
     let logits := p.outs.map fun bi =>
       let b := batch.getD bi ⟨0, 0, 0⟩
-      nextTok sv.vocab sv.eosMod (visible cells b.seq b.pos)
+      nextTok sv.vocab sv.eosMod (visibleW sv.cache.window cells b.seq b.pos)
     let o := { p.obs with outs := p.outs.zip logits |>.map fun (bi, t) => ((batch.getD bi ⟨0, 0, 0⟩).seq, t) }
     pure (phase3 logits n 0 sv o)
 
@@ -532,10 +596,18 @@ inductive Event
   | busy (prompt : List Tok)
 deriving Repr
 
-def mkServer (resetEnd : Int) (parallel ctx batch : Nat) (multi canShift : Bool) (vocab eosMod : Nat) : Server :=
+/-- `Causal.Init`: number of cells -/
+def capacity (parallel ctx batch : Nat) (window : Option Nat) : Nat :=
+  match window with
+  | none => parallel * ctx
+  | some W => if ctx < W then parallel * ctx else parallel * W + batch
+
+def mkServer (resetEnd : Int) (parallel ctx batch : Nat) (multi canShift : Bool) (vocab eosMod : Nat)
+    (window : Option Nat := none) : Server :=
   { cache := { numCtx := ctx, multiUser := multi, canShift := canShift, resetEnd := resetEnd,
                slots := (List.range parallel).map fun i => ⟨i, [], false, 0⟩,
-               cells := List.replicate (parallel * ctx) Cell.free },
+               cells := List.replicate (capacity parallel ctx batch window) Cell.free,
+               window := window },
     seqs := List.replicate parallel none, nextSeq := 0, batchSize := batch, vocab := vocab, eosMod := eosMod }
 
 end OllamaVerif.Runner
